@@ -11,7 +11,7 @@ from .ip_checks import Sess, exc_name
 from .secret_checks import gen_history, render
 from .text_checks import SALTS, WORDLISTS, mixed_text
 
-NAMES = ["r1.cfg", "core router.conf", "ü-edge.cfg", "dots.in.name.txt", "UPPER", "a", "site b", "x y z.cfg", "配置.cfg", "tab\tname", "-dash", "semi;colon", "name[0].cfg",
+NAMES = ["r1_$SITE.cfg", "${SITE}.cfg", "core router.conf", "ü-edge.cfg", "dots.in.name.txt", "UPPER", "a", "site b", "x y z.cfg", "配置.cfg", "tab\tname", "-dash", "semi;colon", "name[0].cfg",
          "x.tmp", "x"]
 DIRS = ["site a", "pop-1", "データ", "deep", ".git", "s", "with.dot", "Ünï", "site[1]", "rack [a-c]", "q?", "st*r"]
 
@@ -106,6 +106,7 @@ def files_scope(res, pid, rng, tier):
     fails, dis = [], []
     sess = Sess()
     rounds = 10 if tier == "thorough" else 4
+    os.environ["SITE"] = "lab7"          # names with `$SITE` / `${SITE}` are names: nothing in a path is expanded
     for r in range(rounds):
         cfg = rand_feature_cfg(rng, [r % 2 == 0 or rng.random() < 0.5, rng.random() < 0.6, rng.random() < 0.4, rng.random() < 0.3])
         if not (cfg.pwd or cfg.ip or cfg.words or cfg.asn):
@@ -161,7 +162,7 @@ def files_scope(res, pid, rng, tier):
                 a, b = read_tree(out2), got
                 fails.append({"kind": "input directory written with a trailing separator gives different output files",
                               "cfg": cfg.describe(), "paths_with_separator": sorted(a), "paths_without": sorted(b)})
-            out3 = os.path.join(d, "out3")
+            out3 = os.path.join(d, "out3_$SITE")
             import contextlib
             try:
                 with fa.LogCap(), contextlib.redirect_stderr(io.StringIO()):
@@ -173,6 +174,21 @@ def files_scope(res, pid, rng, tier):
                 bad = sorted(k for k in set(c) | set(got) if c.get(k) != got.get(k) and not k.startswith("pre-existing"))
                 fails.append({"kind": "command line and directory API produce different content", "cfg": cfg.describe(),
                               "argv": cli_argv(cfg, "<in>", "<out>"), "differing_files": bad[:4]})
+            # ---- an (empty, existing) output directory inside the input tree: exactly the planned files, nothing anonymized twice
+            if r % 2 == 1:
+                ins = os.path.join(d, "snap")
+                write_tree(ins, files, empty_dirs)
+                os.makedirs(os.path.join(ins, "anon_out"))
+                try:
+                    run_dir_api(cfg, ins, os.path.join(ins, "anon_out"))
+                    g4 = read_tree(os.path.join(ins, "anon_out"))
+                except Exception as e:  # noqa
+                    g4 = {"<exception>": repr(e).encode()}
+                if sorted(g4) != want:
+                    fails.append({"kind": "output files are not exactly the non-hidden input files at the same relative paths", "cfg": cfg.describe(),
+                                  "situation": "the output directory exists (empty) inside the input directory",
+                                  "unexpected": sorted(set(g4) - set(want))[:5], "missing": sorted(set(want) - set(g4))[:5]})
+                res.evaluations += len(files)
             # ---- single-file entry points on a directory holding just that file
             for rel in rng.sample(want, min(3, len(want))):
                 one = os.path.join(d, "one")
